@@ -42,6 +42,8 @@ type c07Method struct {
 }
 
 func runC07(w *World, r *Report) {
+	hrParseHeaders(w, r, "R5")
+	hrDumpHeaders(w, r, "R6")
 	pa := w.ByPath[pkgActions]
 	ps := w.ByPath[pkgSharedActs]
 	if pa == nil || ps == nil {
